@@ -36,7 +36,15 @@ def recursive_methods(E) -> dict[str, object]:
     return out
 
 
+#: obligations whose failure contradicts the property (rule, construct pattern, why); every other failure is 'not recognised'
+POSITIVE: list[tuple[str, str, str]] = [
+    ('C16.T1', r'.', 'delegation completeness: a recursive tree method of Expression is not overridden in MultipleExpression or forwards other arguments'),
+    ('C16.T5', r'(compat|order|stale|selected)', 'selection: order-insensitive comparison of catalog and controller names, or a catalog selecting with an index of its own'),
+]
+
+
 def run(ctx: Ctx) -> None:
+    ctx.positive_table = list(POSITIVE)
     prog = ctx.prog
     ctx.rule('C16.T1', 'delegation completeness: every recursive tree method of Expression (it calls itself on the children) is overridden in MultipleExpression and forwards '
              'to the selected member with its own parameters in order - the base versions start at get_children(), i.e. below the selected member - unless it is in the '
@@ -228,7 +236,15 @@ for _E in self.children:
     _ALL |= _E.get_all_controllers()
 return _ALL
 """) is not None
-    ctx.add('C16.T3', 'Catalog.get_all_controllers', ok, ga, 'own controller plus the controllers of every member' if ok else f'Catalog.get_all_controllers: {body}', str(body))
+    part = None
+    if not ok:
+        h = find(ga.node, '_ALL = {self.controlled_by}\nfor _E in __SRC:\n    _ALL |= _E.get_all_controllers()\nreturn _ALL')
+        src = unparse(h['__SRC'][1]) if h is not None else None
+        uses_selected = any(isinstance(x, ast.Call) and unparse(x.func) in ('self.selected', 'self.get_children') for x in walk_no_nested(ga.node))
+        loops_members = any(isinstance(x, ast.For) and unparse(x.iter) == 'self.children' for x in walk_no_nested(ga.node))
+        if (src is not None and src != 'self.children' and uses_selected) or (uses_selected and not loops_members):
+            part = 'the controllers are collected from the currently selected member only (self.selected() / self.get_children() of a catalog), not from every member (self.children): a controller that sits in another alternative is unknown to the central controller, so configurations are missing'
+    ctx.add('C16.T3', 'Catalog.get_all_controllers', ok if (ok or part) else None, ga, 'own controller plus the controllers of every member' if ok else (part or f'Catalog.get_all_controllers is not in the expected form: {body}'), str(body), positive=bool(part))
     bg = E.methods['get_all_controllers']
     BASE = """
 _ALL = set()
